@@ -159,10 +159,19 @@ theorem event_preserves_inv (s s' : DbgState) (e : Event) (h : Inv s) (he : appl
     simp only [applyEvent] at he
     split at he
     · cases he
-    · split at he
-      · cases he; exact ⟨⟨hf, hs⟩, hl⟩
-      · cases he
-        exact ⟨⟨fun p hp => hf p (mem_del hp), hs⟩, hl⟩
+    · cases he
+      exact ⟨⟨fun p hp => hf p (mem_del hp), fun p hp => hs p (mem_del hp)⟩, hl⟩
+  | injectCompletes pathOk tid varName =>
+    simp only [applyEvent] at he
+    have hw := injectSecond_safe { eval := fun _ => .ok, setPathOk := fun _ _ => pathOk } tid varName
+      (s := s) ⟨hf, hs⟩ hl
+    unfold wp at hw
+    split at he
+    · rename_i a t hr
+      cases he
+      rw [hr] at hw
+      exact hw
+    · cases he
   | advance tid depth w =>
     simp only [applyEvent] at he
     split at he
